@@ -148,7 +148,11 @@ impl Property for Attribution {
         }
     }
     fn decode(&self, t: &mut Tape<'_>) -> AttrCase {
-        decode_case(t, &ConvOpts::default(), &InvOpts::default())
+        let co = ConvOpts {
+            typed_parsers: true,
+            ..ConvOpts::default()
+        };
+        decode_case(t, &co, &InvOpts::default())
     }
     fn run(&self, case: &AttrCase, ctx: &mut Ctx) -> Verdict {
         run_attr(case, ctx)
